@@ -267,6 +267,9 @@ func ParseRealtime(content []byte, opts *ParseRealtimeOptions) (*Realtime, error
 	if opts.Extension == nil {
 		opts.Extension = extensions.NoExtension()
 	}
+	if perMessage, ok := opts.Extension.(extensions.PerMessageExtension); ok {
+		opts.Extension = perMessage.ForMessage()
+	}
 	feedMessage := &gtfsrt.FeedMessage{}
 	if err := proto.Unmarshal(content, feedMessage); err != nil {
 		return nil, fmt.Errorf("failed to parse input as a GTFS Realtime message: %s", err)
